@@ -171,8 +171,7 @@ fn pin_op<const V: u32>(_d: &mut Driver<V>, r: usize, may_unpin: bool) {
 /// die. Small objects are allocated back to back; every `k`-th one is linked into a chain that stays
 /// rooted, the others are dropped at once; then an exhaustive collection. The space is swept at a
 /// granularity (line, block, cell) coarser than the objects that died.
-fn dense_blocks<const V: u32>(d: &mut Driver<V>, p: &Params) {
-    let m = 0;
+fn dense_blocks<const V: u32>(d: &mut Driver<V>, p: &Params, m: usize) {
     let head = p.nslots + 1; // root slots the random program never touches
     let tmp = p.nslots + 2;
     let k = 2 + d.rng.below(3) as usize;
@@ -219,7 +218,8 @@ pub fn random_program<const V: u32>(d: &mut Driver<V>, p: &Params, pi: u64, nops
     ev(Obj::new("Reset").int("prog", pi as i64));
     let mut bound: Vec<bool> = with_world(|w| w.mutators.iter().map(|m| m.ptr != 0).collect());
     if flag("dense") && pi % 3 == 0 && !is_nogc {
-        dense_blocks::<V>(d, p);
+        let m = (0..MAX_MUTATORS).find(|i| bound[*i]).unwrap();
+        dense_blocks::<V>(d, p, m);
     }
     let gc_weight = if is_nogc { 0 } else { 1 + d.rng.below(6) };
     for _ in 0..nops {
